@@ -1536,12 +1536,21 @@ func genBase(r *hx.Rand, maxTreeFields int) []string {
 			tree = genD(r, pool, 0, 30)
 		}
 		body = append(body, fmt.Sprintf("dir %s %s", tree, root))
-		if r.Chance(1, 10) { // the same Tree once more, in the other mode
+		if r.Chance(1, 5) { // the same Tree once or twice more, in the other mode / a random mode, before or after
 			other := dtok{kind: '-'}
 			if root.kind == '-' {
 				other = genD(r, pool, 0, 0)
 			}
-			body = append(body, fmt.Sprintf("dir t%d %s", k, other))
+			extra := []string{fmt.Sprintf("dir t%d %s", k, other)}
+			if r.Chance(1, 3) {
+				extra = append(extra, fmt.Sprintf("dir t%d %s", k, genD(r, pool, 50, 0)))
+			}
+			if r.Chance(1, 2) {
+				body = append(body, extra...)
+			} else {
+				last := body[len(body)-1]
+				body = append(append(body[:len(body)-1:len(body)-1], extra...), last)
+			}
 		}
 	}
 	if r.Chance(1, 25) {
@@ -1636,13 +1645,26 @@ func TestC13(t *testing.T) {
 	run.HasModel = model != nil
 	run.SetRule("generated ActionResult/Tree messages (0-4 output files, 0-3 output directories with and without root digest, nested/empty/malformed Trees, " +
 		"nil and malformed digests, inlined contents) through the real decorator over recording AC/CAS backends; per message: every subset of the referenced " +
-		"digests missing (<= 6 quick / <= 8 thorough, else singletons + random subsets), batch sizes 1..4, a CAS fault at every call index, Trees cut/truncated/failing " +
+		"digests missing (<= 6 quick / <= 8 thorough, else singletons + random subsets), batch sizes 1..4, a CAS fault at every call index, every Tree shared by " +
+		"a second output directory of the other root-digest mode (listed before and after) with each child directory object absent, Trees cut/truncated/failing " +
 		"at boundary bytes (quick) or every byte (thorough); plus raw byte strings through util.VisitProtoBytesFields. " +
 		"A case is non-trivial when the action result references >= 2 distinct well-formed digests and the CAS is called; distinct by script hash")
 
+	// Oracle hits and disagreements have separate budgets: a change that makes model and
+	// implementation differ on many cases must not end the search for a concrete failing input.
+	oracleHits, disagreements := 0, 0
+	searching := func() bool { return oracleHits < 10 }
 	handle := func(name string, script []string) caseResult {
 		res := runCase(run, model, name, script, true)
 		found := res.found
+		if res.what != "" {
+			oracleHits++
+		} else if !res.agree {
+			disagreements++
+			if disagreements > 3 {
+				return res // counted, not shrunk or reported again
+			}
+		}
 		if res.what != "" || !res.agree {
 			small := hx.Shrink(script, 1, func(s []string) bool {
 				r2 := runCase(run, model, name, s, false)
@@ -1690,7 +1712,7 @@ func TestC13(t *testing.T) {
 	maxSubsetRefs := run.Scale(6, 8)
 	nbase := run.Scale(900, 4000)
 	faultCodes := []int{14, 13, 5, 3, 2, 4}
-	for i := 0; i < nbase && run.Findings() < 20; i++ {
+	for i := 0; i < nbase && searching(); i++ {
 		r := hx.NewRand(run.Seed, "C13", i)
 		base := genBase(r, run.Scale(3, 4))
 		v := 0
@@ -1745,6 +1767,49 @@ func TestC13(t *testing.T) {
 				do(append(s, missingLine([]dtok{u[r.Intn(len(u))]})))
 			}
 		}
+		// every Tree shared with a further output directory of the other root-digest mode, listed
+		// before and after the original one, complete and with each child directory object absent
+		if spec, err := parseSpec(base); err == nil {
+			for _, ts := range spec.trees {
+				first := -1
+				prefix := fmt.Sprintf("dir t%d ", ts.k)
+				for j, l := range base {
+					if strings.HasPrefix(l, prefix) {
+						first = j
+						break
+					}
+				}
+				if first < 0 {
+					continue
+				}
+				otherRoot := "-"
+				if strings.TrimPrefix(base[first], prefix) == "-" {
+					otherRoot = "f9.7"
+				}
+				extra := prefix + otherRoot
+				var children []dtok
+				seen := map[dtok]bool{}
+				for _, f := range ts.fields {
+					if f.isRaw || (f.num != 1 && f.num != 2) {
+						continue
+					}
+					for _, d := range f.dirs {
+						if d.kind == 'f' && !seen[d] && len(children) < 3 {
+							seen[d] = true
+							children = append(children, d)
+						}
+					}
+				}
+				after := append(append([]string{}, base...), extra)
+				before := append(append(append([]string{}, base[:first]...), extra), base[first:]...)
+				for _, s := range [][]string{after, before} {
+					do(s)
+					for _, c := range children {
+						do(withCfgBatch(append(append([]string{}, s...), missingLine([]dtok{c})), r.Range(1, 4)))
+					}
+				}
+			}
+		}
 		// Trees cut / truncated / failing: every byte (thorough) or around the field boundaries (quick)
 		if spec, err := parseSpec(base); err == nil {
 			if bc, err := build(spec); err == nil {
@@ -1797,7 +1862,7 @@ func TestC13(t *testing.T) {
 		}
 	}
 	nwire := run.Scale(4000, 60000)
-	for i := 0; i < nwire && run.Findings() < 20; i++ {
+	for i := 0; i < nwire && searching(); i++ {
 		r := hx.NewRand(run.Seed, "C13-wire", i)
 		handle(fmt.Sprintf("seed%d/wire%d", run.Seed, i), genWire(r))
 	}
